@@ -1,13 +1,26 @@
 //! Hierarchy model: `Children` / `Parent` components and `despawn_recursive` (E7).
 use crate::world::{Component, Entity, EntityWorldMut, EntityCommands, World};
 
-pub struct Children(pub Vec<Entity>);
+/// up to `MAX_CHILDREN` children per entity (inline array: see world.rs on why the model avoids heap containers)
+pub const MAX_CHILDREN: usize = 3;
+pub struct Children { pub items: [Entity; MAX_CHILDREN], pub n: usize }
 impl Component for Children {}
 pub struct Parent(pub Entity);
 impl Component for Parent {}
 impl Parent { pub fn get(&self) -> Entity { self.0 } }
-impl Children { pub fn iter(&self) -> impl Iterator<Item = &Entity> { self.0.iter() } }
+impl Children
+{
+    pub fn iter(&self) -> impl Iterator<Item = &Entity> { self.items[..self.n].iter() }
+    fn push(&mut self, e: Entity)
+    {
+        if self.n >= MAX_CHILDREN { panic!("model capacity exceeded: MAX_CHILDREN"); }
+        self.items[self.n] = e;
+        self.n += 1;
+    }
+}
 
+/// Despawns the entity and its descendants (E7).  Written without recursion and without loops: descendants are
+/// gathered breadth-first into a fixed list (CBMC would unwind a recursive version to the bound at every level).
 fn despawn_with_children(world: &mut World, entity: Entity)
 {
     // detach from the parent's list
@@ -15,19 +28,38 @@ fn despawn_with_children(world: &mut World, entity: Entity)
     {
         if let Some(mut ch) = world.get_mut::<Children>(parent)
         {
-            let mut i = 0;
-            while i < ch.0.len() { if ch.0[i] == entity { ch.0.remove(i); break; } i += 1; }
+            let n = ch.n;
+            crate::m_unrolled!(i in [0, 1, 2]
+            {
+                if i < n && ch.items[i] == entity { ch.items[i] = ch.items[n - 1]; ch.n = n - 1; }
+            });
         }
     }
-    despawn_rec(world, entity);
-}
-
-fn despawn_rec(world: &mut World, entity: Entity)
-{
-    let children = match world.m_remove_component::<Children>(entity) { Some(c) => c.0, None => Vec::new() };
-    let mut i = 0;
-    while i < children.len() { despawn_rec(world, children[i]); i += 1; }
-    world.despawn(entity);
+    // fast path: no children
+    if !world.m_has::<Children>(entity) { world.despawn(entity); return; }
+    let mut list = [Entity::PLACEHOLDER; crate::world::MAX_ENTITIES];
+    let mut n = 1;
+    list[0] = entity;
+    crate::m_unrolled!(idx in [0, 1, 2, 3, 4, 5]
+    {
+        if idx < n
+        {
+            if let Some(ch) = world.m_remove_component::<Children>(list[idx])
+            {
+                crate::m_unrolled!(c in [0, 1, 2]
+                {
+                    if c < ch.n
+                    {
+                        if n >= crate::world::MAX_ENTITIES { panic!("model capacity exceeded: descendants"); }
+                        list[n] = ch.items[c];
+                        n += 1;
+                    }
+                });
+            }
+        }
+    });
+    // descendants first, the entity itself last
+    crate::m_unrolled!(idx in [5, 4, 3, 2, 1, 0] { if idx < n { world.despawn(list[idx]); } });
 }
 
 pub trait DespawnRecursiveExt
@@ -79,7 +111,7 @@ impl<'w> BuildChildren for EntityWorldMut<'w>
 /// verification-only: make `child` a child of `parent`
 pub fn m_link(world: &mut World, parent: Entity, child: Entity)
 {
-    if world.m_has::<Children>(parent) { world.get_mut::<Children>(parent).unwrap().0.push(child); }
-    else { world.m_insert_component(parent, Children(vec![child])); }
+    if world.m_has::<Children>(parent) { world.get_mut::<Children>(parent).unwrap().push(child); }
+    else { let mut c = Children{ items: [Entity::PLACEHOLDER; MAX_CHILDREN], n: 0 }; c.push(child); world.m_insert_component(parent, c); }
     world.m_insert_component(child, Parent(parent));
 }
